@@ -392,7 +392,16 @@ class Machine:
             return ("return", v)
         elif k == "awaitsub":
             sub = self.subs[s["sub"]]
-            senv = {p: self.ev(a, env) for p, a in zip(sub["params"], s["args"])}
+            # a bare object passed as argument is aliased (Python passes the object, the sub-coroutine reads its
+            # current value whenever it uses the parameter); computed arguments are values
+            senv = {}
+            for p, a in zip(sub["params"], s["args"]):
+                if a[0] in ("in", "sig", "var"):
+                    senv[p] = (lambda a=a, env=env: self.ev(a, env))
+                elif a[0] == "loc" and callable(env.get(a[1])):
+                    senv[p] = env[a[1]]
+                else:
+                    senv[p] = self.ev(a, env)
             if any(a[0] not in ("in", "sig", "var", "const", "loc") for a in s["args"]):
                 self.fresh = False
             self.labels.add("sub_coroutine")
